@@ -62,7 +62,23 @@ struct alignas(VF_ALIGN) Over {
 static_assert(alignof(Over) == VF_ALIGN && sizeof(Over) == VF_ALIGN, "over-aligned payload");
 
 using Vec = dispenso::SmallVector<Over, VF_N>;
-static_assert(alignof(Vec) >= VF_ALIGN, "the vector object itself is over-aligned (inline storage)");
+// The vector objects are placed at addresses that are aligned for Vec and for nothing more (a typed
+// holder shifts them by 1..3 times alignof(Vec) from a maximally aligned base): if
+// alignof(SmallVector<T,N>) were smaller than alignof(T), inline elements would be misaligned.
+template <int K>
+struct alignas(512) Holder {
+  unsigned char pad[alignof(Vec) * K];
+  Vec v;
+};
+static Holder<1> g_h1[2];
+static Holder<2> g_h2[2];
+static Holder<3> g_h3[2];
+static Vec* place(int which) {
+  uint32_t k = vf_range_u32(1, 3);
+  if (k == 1) return &g_h1[which].v;
+  if (k == 2) return &g_h2[which].v;
+  return &g_h3[which].v;
+}
 
 VF_NOINLINE static void check_elements(Vec& v, uint32_t n) {
   vf_check(v.size() == n, "size() follows the operations");
@@ -82,7 +98,7 @@ VF_NOINLINE static void check_elements(Vec& v, uint32_t n) {
 // sizes are constants for the solver); what is symbolic is the placement the allocator chooses for
 // every block, the element probed, and which of the optional steps are taken.
 extern "C" void vf_main() {
-  Vec v;  // automatic object: the compiler places it at an address aligned for Vec
+  Vec& v = *place(0);  // any address aligned for Vec
   vf_check(reinterpret_cast<uintptr_t>(&v) % alignof(Vec) == 0, "harness: the vector object is aligned");
   uint32_t n = 0;
   check_elements(v, n);
@@ -118,7 +134,7 @@ extern "C" void vf_main() {
   }
 #endif
   // reserve on an empty vector: heap storage before any element exists, then resize into it
-  Vec w;
+  Vec& w = *place(1);
   w.reserve(VF_N + 1);
   vf_check(w.capacity() >= VF_N + 1, "capacity() >= n after reserve(n)");
   check_elements(w, 0);
@@ -134,5 +150,7 @@ extern "C" void vf_main() {
   w.emplace_back(1);
   check_elements(w, 1);
 #endif
+  w.clear();
+  v.clear();
 }
 #pragma clang attribute pop
